@@ -472,8 +472,10 @@ class Builder:
             inner = m[o + 1:c]
             t = re.search(r"\.\s*try_into\s*\(\s*\)\s*\.\s*unwrap\s*\(\s*\)\s*$", inner)
             if t:
+                # an indexed place (`value[3..7]`) is auto-referenced by `.try_into()`; the wrapper needs `&`
+                amp = "&" if re.search(r"\]\s*$", inner[:t.start()]) and not inner.lstrip().startswith("&") else ""
                 edits.append(Edit(a + mm.start(), o + 1,
-                                  [Seg("vx_%s_from_%s_slice(" % (mm.group(1), mm.group(2)), "repo", fn=qual)]))
+                                  [Seg("vx_%s_from_%s_slice(%s" % (mm.group(1), mm.group(2), amp), "repo", fn=qual)]))
                 edits.append(Edit(o + 1 + t.start(), c, []))
             else:
                 edits.append(Edit(a + mm.start(), o + 1,
